@@ -24,21 +24,31 @@ Covered by theorem (for all inputs of the stated shape, each with an explicit fu
   SourceChar, DocString (absent), `_`, `__`: `c10_gap_texts` / `c10_gap_consumed` — every text made of
   white space, newlines, block comments, `//` and `#` comments is consumed exactly by the gap rule;
   `c10_type_comments_invisible` — such a text after a type does not change the value;
+  EnumValue, the enum body `(EnumValue __)*` by induction over the list, Enum with the `;` form of EOS:
+  `c10_enum_roundtrip` — syntax and Thrift numbering together, doc comments, `= integer`, separators,
+  any gap texts; ListSeparator; DocString (present) with its lines (`docLines`);
+  Field (doc, id, FieldModifier, type, name, integer default via ConstValue — Literal / BoolConstant /
+  DoubleConstant shown to fail on an integer —, separators): `c10_field_roundtrip`;
+  FieldList by induction over the list: `c10_fieldlist_roundtrip`;
+  StructLike, Struct, Exception, Union (fields forced optional): `c10_struct_roundtrip`;
+  Literal: exact consumption for both quote styles (`c10_literal_consumed`), value round trip for the
+  double-quoted style with its escapes (`c10_string_literal_partial`, counterexample for the finding);
   the sequence `typ:FieldType _ name:Identifier` of Field / TypeDef / Const (`c10_roundtrip_partial`);
   the interpreter itself (`c10_peg_fuel_monotone`: a result obtained with some fuel is the result
   with any larger fuel, so the fuel is not part of the meaning).
   Reusable combinators for further rules are in Proofs/Peg.lean (`ParsesTo`, `FailsOn`, `SeqRun`,
-  `ChoiceRun`, `StarRun`) and Proofs/PegGaps.lean (`IsGap`: gaps as abstract texts).
+  `ChoiceRun`, `StarRun`), Proofs/PegGaps.lean (`IsGap`: gaps as abstract texts) and
+  Proofs/PegTokens.lean (doc comments, integers, item tails, `SeqRun.append`).
   Concrete instances evaluated by the kernel: an annotated nested type, the keyword-prefix finding
-  (`c10_type_roundtrip_counterexample`).
+  (`c10_type_roundtrip_counterexample`), a written enum and a written struct (non-vacuity).
 Covered by correspondence only (harness suite c10: original model = real parser = this interpreter
-on the regenerated grammar, whole files and fragments, every run): type annotations and comments
-after a base/container type inside brackets, Literal, DoubleConstant, BoolConstant,
-ConstValue/ConstList/ConstMap, TypeAnnotations/TypeAnnotation (present), Field as a whole (docstr, id,
-modifier, default, separator), FieldList, StructLike/Struct/Exception/Union, Enum/EnumValue syntax,
-TypeDef, Const, Namespace, Include, Function, FunctionType, Throws, Service, Scope, Prefix, Operation,
-DocString (present), EOS, Statement, Grammar (the top-level round trip `parse (render m) = m` is the
-stated goal and is NOT proved here; `c10_roundtrip_partial` names the largest multi-rule fragment proved).
+on the regenerated grammar, whole files and fragments, every run): annotations everywhere
+(TypeAnnotations/TypeAnnotation present) and comments after a base/container type inside brackets,
+the VALUE of single-quoted literals (consumption is proved), DoubleConstant and BoolConstant values, ConstList/ConstMap, Identifier as a
+constant value, defaults other than integers, TypeDef, Const, Namespace, Include, Function,
+FunctionType, Throws, Service, Scope, Prefix, Operation, the newline and end-of-file forms of EOS,
+Statement (doc comments of declarations), Grammar (the top-level round trip `parse (render m) = m` is
+the stated goal and is NOT proved here; the declaration-level theorems above are its largest proved parts).
 Recorded findings (KNOWN_FINDINGS.txt) are outside every hypothesis: identifiers with a keyword
 prefix in a keyword position, statements sharing a line, literals ending in a backslash, a comment
 after `prefix`, Thrift constructs without a production.
@@ -52,6 +62,10 @@ import FV.Proofs.PegIdl
 import FV.Proofs.PegGaps
 import FV.Proofs.PegTypes
 import FV.Proofs.PegComments
+import FV.Proofs.PegTokens
+import FV.Proofs.PegEnums
+import FV.Proofs.PegFields
+import FV.Proofs.PegLiterals
 
 namespace FV.C10
 open FV.Peg FV.Act FV.Syn FV.Generated FV.PegIdl
@@ -100,6 +114,178 @@ Thrift's rule gives 5,2,3,-3,-2 (replayed on the real parser: corpus/C10/c10-fix
 theorem c10_enum_numbering_old_action_counterexample :
     oldNumbers 0 [5, 2, -1, -3, -1] = [5, 2, 6, 7, 8] ∧
     thriftNumbers (-1) [some 5, some 2, none, some (-3), none] = [5, 2, 3, -3, -2] := by
+  decide
+
+/-- Thrift's numbering over the values as the `EnumValue` action returns them (`prev = -1` before the first). -/
+def thriftEnum : Int → List RawEV → List EnumValue
+  | _, [] => []
+  | prev, v :: t =>
+    let n := match v.value with
+      | some x => x
+      | none => prev + 1
+    { doc := v.doc, name := v.name, num := n, anns := v.anns } :: thriftEnum n t
+
+theorem numberEnum_thriftEnum (prev : Int) (vs : List RawEV) : numberEnum (prev + 1) vs = thriftEnum prev vs := by
+  induction vs generalizing prev with
+  | nil => rfl
+  | cons v t ih => cases hv : v.value <;> simp [numberEnum, thriftEnum, hv, ih]
+
+/-- The enum a written enum denotes: its name, and its values numbered by Thrift's rule. -/
+def enumOf (e : SEnum) : Syn.Enum :=
+  { doc := none, name := e.c :: e.s, values := thriftEnum (-1) (e.items.map fun p => p.1.raw), anns := [] }
+
+/-- Round trip of the `Enum` rule, syntax and numbering together: for every written enum —
+`enum` name `{` values `}` `;` with any gap texts (white space, newlines, comments) between the
+tokens, every value with or without doc comment, with or without `= integer` (any sign, any digits
+that fit int64), with `,` `;` or no separator — parsing consumes exactly the text and the action
+returns the same name and values with Thrift's numbers (fuel `cost + 30`; `cost` is linear in the text).
+`Ok` asks that the gaps are gap texts, names are identifiers, and that what follows a value without a
+separator is not something the value's own rule would take (`SEnumValue.End`).
+Not covered (correspondence only): annotations on the enum and its values, the newline and
+end-of-file forms of the statement end (`EOS`), a doc comment on the enum itself (rule Statement). -/
+theorem c10_enum_roundtrip (e : SEnum) (rest : List Char) (hok : e.Ok rest) (F : Nat) (hF : e.cost + 30 ≤ F) :
+    ∃ t, parse F grammar "Enum" (e.renderK rest) = .ok t rest ∧ evEnum t = enumOf e := by
+  obtain ⟨t, hp, hev⟩ := enum_parses e rest hok
+  refine ⟨t, hp F hF, ?_⟩
+  rw [hev, enumOf]
+  have := numberEnum_thriftEnum (-1) (e.items.map fun p => p.1.raw)
+  have h0 : (-1 : Int) + 1 = 0 := by decide
+  rw [h0] at this
+  rw [this]
+
+/-- Non-vacuity: `enum E {A, B=-3\n};` is a written enum the theorem applies to; its numbers are 0, -3. -/
+
+def exV1 : SEnumValue := ⟨none, 'A', [], [], none, some ','⟩
+def exV2 : SEnumValue := ⟨none, 'B', [], [], some ⟨[], ⟨['-'], '3', []⟩, []⟩, none⟩
+def exEnum : SEnum := ⟨[' '], 'E', [], [' '], [], [(exV1, [' ']), (exV2, ['\n'])], [], []⟩
+
+example : exEnum.renderK [] = "enum E {A, B=-3\n};".toList := by decide
+
+example : exEnum.Ok [] := by
+  refine ⟨.ws ' ' (by decide), by decide, by simp [exEnum], .ws ' ' (by decide), .nil, ?_, ?_, .nil, .nil, HeadP.nil⟩
+  · exact TokHead.uustop (HeadP.cons (by decide))
+  · refine ⟨⟨trivial, by decide, by simp [exV1], .nil, Or.inl rfl, trivial⟩, .ws ' ' (by decide), ⟨trivial, fun h => by cases h⟩,
+      TokHead.uustop (HeadP.cons (by decide)), ?_⟩
+    refine ⟨⟨trivial, by decide, by simp [exV2], .nil, trivial, .nil, ⟨Or.inr (Or.inl rfl), by decide, by simp [exV2], by decide⟩, .nil⟩, .newline,
+      ⟨HeadP.cons (by decide), fun _ _ => HeadP.cons (by decide)⟩, TokHead.uustop (HeadP.cons (by decide)), trivial⟩
+
+example : (enumOf exEnum).values.map (·.num) = [0, -3] := by decide
+
+/-! ### fields and struct-like declarations -/
+
+/-- Round trip of the `Field` rule: for every written field — optional doc comment, id (any sign and
+digits that fit int64), gap, `:`, gap, optional `required`/`optional` with its gap, any well-formed
+type (`c10_type_roundtrip_partial`'s class), a separating gap, the name, a gap of `__`, optionally
+`=` gap integer gap, then `,` `;` or no separator — with any gap texts (white space, comments)
+in the gap positions, parsing consumes exactly the text and the action returns the field (doc, id,
+requiredness, name, type, default); fuel `cost + 30`, `cost` linear in the text.
+`End` states what may follow a field without separator (nothing its own rule would take).
+Not covered (correspondence only): annotations on the field, defaults other than integer literals. -/
+theorem c10_field_roundtrip (f : SField) (hok : f.Ok) (rest : List Char) (hend : f.End rest) (F : Nat) (hF : f.cost + 30 ≤ F) :
+    ∃ t, parse F grammar "Field" (f.renderK rest) = .ok t rest ∧ evField t = some f.erase := by
+  obtain ⟨t, hp, _, hev⟩ := field_parses f hok rest hend
+  exact ⟨t, hp F hF, hev⟩
+
+/-- Round trip of `FieldList` (the body of structs, unions, exceptions, argument and throws lists) by
+induction over the list: every list of written fields, each followed by a gap of `__`, up to a closer
+that cannot start a field (`}` or `)`), gives the list of fields; fuel `2·cost + 10`. -/
+theorem c10_fieldlist_roundtrip (items : List (SField × List Char)) (tail : List Char) (hok : FieldsOk items tail)
+    (ht : NoFieldStart tail) (F : Nat) (hF : 2 * fieldsCost items + 10 ≤ F) :
+    ∃ t, parse F grammar "FieldList" (fieldsK items tail) = .ok t tail ∧ evFields t = some (items.map fun p => p.1.erase) := by
+  obtain ⟨t, hp, hev⟩ := fieldList_parses items tail hok ht
+  exact ⟨t, hp F hF, hev⟩
+
+/-- The three struct-like declarations. -/
+inductive StructKind where
+  | struct | exception | union
+
+def StructKind.rule : StructKind → String
+  | .struct => "Struct"
+  | .exception => "Exception"
+  | .union => "Union"
+
+def StructKind.keyword : StructKind → List Char
+  | .struct => "struct".toList
+  | .exception => "exception".toList
+  | .union => "union".toList
+
+/-- What the `Grammar` action stores for the declaration: a union's fields are all optional. -/
+def structOf (k : StructKind) (e : SStructLike) : Struct :=
+  match k with
+  | .union => { e.erase with fields := forceOptional e.erase.fields }
+  | _ => e.erase
+
+/-- The value the `Grammar` action computes from the statement's tree (`addStatement`, doc comment aside). -/
+def evStructDecl (k : StructKind) (t : Tree) : Option Struct :=
+  match k with
+  | .union => (evStructLike (FV.Act.get t "st")).map fun c => { c with fields := forceOptional c.fields }
+  | _ => evStructLike (FV.Act.get t "st")
+
+/-- Round trip of `Struct` / `Exception` / `Union`: keyword, gap, name, gap, `{`, gap, fields, `}`,
+gaps, `;` — for every written declaration the rule consumes exactly the text and the model gets the
+name and the fields (for a union: every field optional, whatever was written); fuel `cost + 2·|gap| + 110`.
+Not covered (correspondence only): annotations, the newline / end-of-file statement ends, the doc comment
+of the declaration (rule Statement). -/
+theorem c10_struct_roundtrip (k : StructKind) (ga : List Char) (hga : UGapText ga) (e : SStructLike) (rest : List Char)
+    (hok : e.Ok rest) (F : Nat) (hF : e.cost + 2 * ga.length + 110 ≤ F) :
+    ∃ t, parse F grammar k.rule (k.keyword ++ (ga ++ e.renderK rest)) = .ok t rest ∧ evStructDecl k t = some (structOf k e) := by
+  cases k with
+  | struct =>
+    obtain ⟨t, hp, hev⟩ := structKw_parses "Struct" "Struct1" "struct".toList (by rfl) ga hga e rest hok
+    exact ⟨t, hp F hF, by simpa [evStructDecl, structOf] using hev⟩
+  | exception =>
+    obtain ⟨t, hp, hev⟩ := structKw_parses "Exception" "Exception1" "exception".toList (by rfl) ga hga e rest hok
+    exact ⟨t, hp F hF, by simpa [evStructDecl, structOf] using hev⟩
+  | union =>
+    obtain ⟨t, hp, hev⟩ := structKw_parses "Union" "Union1" "union".toList (by rfl) ga hga e rest hok
+    exact ⟨t, hp F hF, by simp [evStructDecl, structOf, hev]⟩
+
+
+/-- Non-vacuity: `struct S {\n 1: i32 a\n};` is a written struct the theorems apply to. -/
+def exField : SField := ⟨none, ⟨[], '1', []⟩, [], [' '], none, .base "i32".toList, [' '], 'a', [], ['\n'], none, none⟩
+def exStruct : SStructLike := ⟨'S', [], [' '], ['\n', ' '], [(exField, [])], [], []⟩
+
+example : "struct".toList ++ ([' '] ++ exStruct.renderK []) = "struct S {\n 1: i32 a\n};".toList := by decide
+
+theorem exField_ok : exField.Ok :=
+  ⟨trivial, ⟨Or.inl rfl, by decide, by simp [exField], by decide⟩, .nil, .ws ' ' (by decide), ⟨by decide, by decide⟩, (by simp [exField, STy.Ok, baseNames]),
+    .ws ' ' (by decide), by simp [exField], by decide, by simp [exField], .newline, trivial, trivial⟩
+
+example : exStruct.Ok [] := by
+  refine ⟨by decide, by simp [exStruct], .ws ' ' (by decide), .append .newline (.ws ' ' (by decide)), ?_, ?_, .nil, .nil, HeadP.nil⟩
+  · exact TokHead.uustop (HeadP.cons (by decide))
+  · refine ⟨exField_ok, .nil, ⟨HeadP.cons (by decide), fun _ => ⟨TokHead.uustop (HeadP.cons (by decide)), HeadP.cons (by decide), fun h => by simp [exField] at h⟩⟩,
+      TokHead.uustop (HeadP.cons (by decide)), trivial⟩
+
+/-! ### string literals -/
+
+/-- The `Literal` rule, both quote styles: a written literal `q body q` whose body is scanned by
+`(\\q / [^q])*` up to its end (`litBodyOk`: no bare `q`, and no final backslash that would pair with
+the closing quote — the recorded finding literal-trailing-backslash is exactly the excluded class) is
+consumed exactly, whatever follows, and the action gets its text (fuel `2·|body| + 20`). -/
+theorem c10_literal_consumed (q : Char) (hq : IsQuote q) (body next : List Char) (hok : litBodyOk q body = true)
+    (F : Nat) (hF : 2 * body.length + 20 ≤ F) :
+    ∃ t, parse F grammar "Literal" (q :: body ++ q :: next) = .ok t next ∧ tagOf t = "Literal1" ∧ textOf t = q :: body ++ [q] := by
+  obtain ⟨t, hp, h1, h2⟩ := literal_exact q hq body next hok
+  exact ⟨t, hp F hF, h1, h2⟩
+
+/-- Round trip of string values in the double-quoted style with the escapes `\\"` `\\\\` `\\n` `\\t` `\\r`:
+for EVERY value (any characters) that does not end in a backslash, the rendered literal is consumed
+exactly and the action (strconv.Unquote as modelled) returns the value, without error.
+PARTIAL — missing for the full statement: the VALUE computed for the single-quoted style (the action's
+two `strings.Replace` calls before Unquote); for that style only exact consumption is proved
+(`c10_literal_consumed`), the values are covered by the correspondence of suite c10. -/
+theorem c10_string_literal_partial (v next : List Char) (hv : endsBS v = false) (F : Nat) (hF : 2 * (renderDQ v).length + 20 ≤ F) :
+    ∃ t, parse F grammar "Literal" ('"' :: renderDQ v ++ '"' :: next) = .ok t next ∧
+      evLiteral t = v ∧ actErr "Literal1" (textOf t) = false := by
+  obtain ⟨t, hp, _, htx⟩ := c10_literal_consumed '"' (Or.inl rfl) (renderDQ v) next (renderDQ_ok v hv).1 F hF
+  have hl : literalValue (textOf t) = .ok v := by rw [htx]; exact literalValue_renderDQ v
+  refine ⟨t, hp, ?_, ?_⟩
+  · simp only [evLiteral, hl]
+  · simp [actErr, hl]
+
+/-- The recorded finding on the model: the body of `"a\\\\"` (value `a\\`) is not scanned to its end. -/
+theorem c10_string_literal_counterexample : litBodyOk '"' (renderDQ ['a', '\\']) = false ∧ endsBS ['a', '\\'] = true := by
   decide
 
 /-! ### the interpreter -/
